@@ -4,6 +4,7 @@
 import PasfmtModel.Proofs.PipelineC01
 import PasfmtModel.Model.Contracts
 import PasfmtModel.Proofs.LexBoundaries
+import PasfmtModel.Proofs.MlsSim
 
 namespace Pasfmt.C01
 
@@ -49,6 +50,14 @@ theorem C01_format (cfg : Config) (O : Oracles) (s : Bytes) (hv : ValidUtf8 s) (
     unfold format; rw [hl]; exact ⟨_, rfl⟩
   obtain ⟨out, ho⟩ := hfmt
   exact ⟨out, ho, C01_format_partial cfg O s out ho hW hnd⟩
+
+/-- **C01 under the exact wrapper contract.**  `WrapExact` is what the correspondence compares on every
+    case (`wc`): leading whitespace kept or dropped, kinds and ignored flags kept, contents changed
+    exactly as the model of the string re-indenter does with the final counters.  The frame used by
+    `C01_format` is a consequence (`mlsRewrite_sim`: the re-indenter only changes blanks). -/
+theorem C01_format_exact (cfg : Config) (O : Oracles) (s : Bytes) (hv : ValidUtf8 s) (hW : WrapExact O) :
+    ∃ out, format cfg O s = some out ∧ foldStrip out = foldStrip s :=
+  C01_format cfg O s hv hW.frame
 
 /-- the reconstructor emits every token's content exactly once, in order, separated by blank-only
     gaps — for **every** assignment of whitespace counters and every ignored-set -/
